@@ -323,3 +323,77 @@ pub fn strict_pair(a: &MP, b: &MP, ops: &[geo_booleanop::boolean::Operation]) ->
     }
     out
 }
+
+// ---------------------------------------------------------------------------------------------
+// pinned adversarial corpus for C01: the inexact-and-degenerate region, as a regression net
+
+/// digests of the pinned-corpus cases on which the unchanged tree is known to return a wrong region or to panic with
+/// a recorded signature (corpus/known/adv_c01_digests.json); loaded once
+pub fn adv_known_digests() -> &'static std::collections::HashSet<u64> {
+    use std::sync::OnceLock;
+    static SET: OnceLock<std::collections::HashSet<u64>> = OnceLock::new();
+    SET.get_or_init(|| {
+        let path = format!("{}/corpus/known/adv_c01_digests.json", crate::runner::verif_root());
+        let mut set = std::collections::HashSet::new();
+        if let Ok(s) = std::fs::read_to_string(&path) {
+            if let Ok(v) = serde_json::from_str::<Value>(&s) {
+                if let Some(a) = v.get("digests").and_then(|d| d.as_array()) {
+                    for d in a {
+                        if let Some(h) = d.as_str().and_then(|h| u64::from_str_radix(h, 16).ok()) {
+                            set.insert(h);
+                        }
+                    }
+                }
+            }
+        }
+        set
+    })
+}
+
+/// the strategy of the pinned corpus: small-lattice simple polygons only (integer coordinates: fully deterministic)
+pub fn adv_lattice_strategy() -> BoxedStrategy<Adv> {
+    use proptest::collection::vec;
+    (5u8..=8).prop_flat_map(|n| (vec((0..=n, 0..=n), 3..8), vec((0..=n, 0..=n), 3..8), Just(n))).prop_map(|(a, b, n)| Adv::Lattice { a, b, n }).boxed()
+}
+
+/// C01's oracle on one pinned-corpus case. `collect`: report every failing case (used to build the known list);
+/// otherwise cases whose digest is listed are counted and not reported.
+pub fn eval_adv_c01(d: &Adv, want_sample: bool, collect: Option<&std::sync::Mutex<Vec<u64>>>) -> Eval {
+    let (a, b) = match adv_operands(d) {
+        Some(x) => x,
+        None => return Eval::skipped(crate::gen::Reject::Margin),
+    };
+    let case = Case { family: "adversarial-pinned", a, b, c: MultiPolygon(vec![]), exact: false, selfx: false, bits: 0 };
+    let digest = ser::case_digest(&case);
+    let mut obs = Obs::default();
+    let ctx = PairCtx::new(&case.a, &case.b, case.tol());
+    obs.nontrivial = !ctx.trivial_path;
+    let mut failure: Option<Failure> = None;
+    for op in OPS {
+        match run_op(Prec::F64, Pairing::MM, &case.a, &case.b, op) {
+            Err(p) => {
+                let sig = signature(&p);
+                failure = Some(Failure::new("panic", format!("{} panicked at {}:{}: {} (signature {:?})", op_name(op), p.file, p.line, p.message, sig)));
+                break;
+            }
+            Ok(r) => {
+                if let Err((w, ia, ib, s)) = region_check(&r, &ctx, op) {
+                    failure = Some(Failure::new("region-mismatch", format!("pinned adversarial corpus: {} witness ({},{}) inA={} inB={} result membership {:?}; result {}", op_name(op), w.x, w.y, ia, ib, s, ser::mp_to_text(&r))));
+                    break;
+                }
+            }
+        }
+    }
+    let mut result = Ok(());
+    if let Some(f) = failure {
+        if let Some(c) = collect {
+            c.lock().unwrap().push(digest);
+        } else if adv_known_digests().contains(&digest) {
+            obs.count("known_adversarial_corpus_failures", 1);
+            obs.class("known-finding-K5");
+        } else {
+            result = Err(f);
+        }
+    }
+    Eval { obs, result, digest, family: "adversarial-pinned", sample: if want_sample { Some(ser::case_sample(&case)) } else { None }, skip: None }
+}
